@@ -260,6 +260,7 @@ def main():
     kf = known_findings()
     new_violations = []
     known_hit = collections.Counter()
+    unexamined = collections.Counter()
     harness_problem = None
     cf_exes = {}
     def cf_exe(f):
@@ -297,6 +298,12 @@ def main():
         doc["binary"] = "san" if d.get("san") else "plain"
         json.dump(doc, open(path, "w"))
         for v in vs:
+            # once a class has several confirmed, unattributed violations, further runs of the
+            # same class add nothing to the verdict: count them, do not replay them one by one
+            could_be_known = any(prop in f.get("properties", []) and (not f.get("classes") or v["cls"] in f["classes"]) for f in kf.get("findings", []))
+            if not could_be_known and sum(1 for _, w, _ in new_violations if w["cls"] == v["cls"]) >= 5:
+                unexamined[v["cls"]] += 1
+                continue
             # gate: fresh-process replay must reproduce the same class
             rc1, r1, _ = replay(use, path)
             if not has_viol(r1, prop, v["cls"]):
@@ -381,7 +388,7 @@ def main():
             "file modification times never go backwards",
         ],
         "wall_s": round(wall, 2),
-        "violations": len(new_violations),
+        "violations": len(new_violations) + sum(unexamined.values()),
     }
     os.makedirs(os.path.join(VERIF, "evidence"), exist_ok=True)
     json.dump(evidence, open(os.path.join(VERIF, "evidence", prop + ".json"), "w"), indent=1)
